@@ -124,6 +124,8 @@ class TDT(LDT):
         self.opaque_closures = opaque_closures
         self.havoc = havoc
         self.closures: dict[str, ast.AST] = {}
+        self.generic_lists: set[int] = set()       # accumulators appended to inside a generic iteration: one element stands for any number
+        self._keep: list = []
 
     # ---- terms
     def ev_Attribute(self, n, env):
@@ -245,7 +247,25 @@ class TDT(LDT):
                     elt = (self.ev(n.key, e2), self.ev(n.value, e2)) if kind == "dict" else self.ev(n.elt, e2)
                 return CompSym(f"[{path_of(elt) if kept else '-'} for {elem.path}]", None, elt, elem, it, kind)
             self._pre[id(g.iter)] = it
-        return super()._comp(n, env, kind)
+            return super()._comp(n, env, kind)
+        # several generators (a flattening comprehension): one generic element per generator, innermost last; the result is a comprehension term
+        # (its length is not modelled), not a list of one element
+        e = dict(env)
+        e["__outer__"] = env
+        elem = it = None
+        for g in n.generators:
+            it = self.concrete(self.ev(g.iter, e))
+            if isinstance(it, dict):
+                it = list(it)
+            if isinstance(it, (list, tuple, range)) and len(it) == 0 and id(it) not in self.generic_lists:
+                return {} if kind == "dict" else []            # a literal empty sequence: nothing is produced
+            elem = ElemSym(f"∀{unparse(g.target)}∈{path_of(it)}", None, it)
+            self.assign(g.target, elem, e)
+            self.run_state.effects.append(("comp", n, it, elem))
+            if not all(self.truth(self.ev(c, e)) for c in g.ifs):
+                return CompSym(f"[- for {elem.path}]", None, None, elem, it, kind)
+        elt = (self.ev(n.key, e), self.ev(n.value, e)) if kind == "dict" else self.ev(n.elt, e)
+        return CompSym(f"[{path_of(elt)} for {elem.path}]", None, elt, elem, it, kind)
 
     def ev_SetComp(self, n, env):
         return self._comp(n, env, "set")
@@ -305,12 +325,17 @@ class TDT(LDT):
                 env[nme] = Carried(nme, None, env[nme])
         self.assign(s.target, elem, env)
         how = "end"
+        sizes = {id(x): (x, len(x)) for x in env.values() if isinstance(x, (list, dict))}
         try:
             self.block(s.body, env)
         except _Continue:
             how = "continue"
         except _Break:
             how = "break"
+        for x, n0 in sizes.values():
+            if len(x) != n0:
+                self.generic_lists.add(id(x))
+                self._keep.append(x)
         self.run_state.effects.append(("endloop", s, dict(env), how))
         if self.havoc:
             for nme in self._written(s):
@@ -340,7 +365,7 @@ class TDT(LDT):
                         return self._native(nm, args, kw)
                     except (TypeError, ValueError):
                         pass
-                if nm in ("list", "tuple") and len(args) == 1 and isinstance(args[0], (list, tuple)):
+                if nm in ("list", "tuple") and len(args) == 1 and isinstance(args[0], (list, tuple)) and id(args[0]) not in self.generic_lists:
                     return list(args[0]) if nm == "list" else tuple(args[0])
                 return CallSym(f"{nm}({', '.join(path_of(a) for a in args)})", None, None, nm, args, self._kwt(kw))
             return super().ev_Call(n, env)
@@ -363,6 +388,27 @@ class TDT(LDT):
                 if m in self.watch:
                     self.run_state.effects.append(("call", m, Sym(cname), args, kw, n, ret))
                 return ret
+            if isinstance(base, dict) and m == "get" and n.args and m not in self.watch:
+                args, kw = self._args(n, env)
+                k = self.concrete(args[0])
+                dflt = args[1] if len(args) > 1 else None
+                if isinstance(k, Sym) or has_sym(k):
+                    kk = k.path if isinstance(k, Sym) else k
+                    try:
+                        if kk in base:
+                            return base[kk]              # stored under this very key earlier on the path
+                    except TypeError:
+                        pass
+                    if not base:
+                        return dflt                      # an empty table: a certain miss
+                    # membership of a symbolic key in a non-empty table is not known: both outcomes
+                    if self.atom(f"{path_of(k)} in {{…{len(base)} keys}}", [True, False]):
+                        return SubSym(f"{{…}}[{path_of(k)}]", None, Sym("{…}"), k)
+                    return dflt
+                try:
+                    return base.get(k, dflt)
+                except TypeError:
+                    return Sym("?" + unparse(n)[:80])
             self._pre[id(f.value)] = base
             try:
                 if m in self.watch:
@@ -385,6 +431,8 @@ class TDT(LDT):
         if has_sym(list(args)) and nm not in ("len", "list", "tuple", "enumerate", "zip", "reversed"):
             raise TypeError("symbolic")
         if nm == "len":
+            if isinstance(args[0], list) and id(args[0]) in self.generic_lists:
+                raise TypeError("length of a list filled by a generic loop iteration is not known")
             return len(args[0])
         if nm in ("enumerate", "zip", "reversed", "list", "tuple", "sorted"):
             return list({"enumerate": enumerate, "zip": zip, "reversed": reversed, "list": list, "tuple": tuple, "sorted": sorted}[nm](*args, **{k: v for k, v in kw.items() if k != "strict"}))
@@ -414,7 +462,21 @@ def closure_summary(dt_factory, fi, node, limit: int = 500):
         return e
     dt = dt_factory()
     pre = [s for s in temps_for(fi.node, node.body) if not any(isinstance(t, ast.Name) and t.id in ps for t in s.targets)]
-    leaves = run_block(dt, pre + list(node.body), env0, fi, limit=limit)
+    # sibling closures (summarised separately when called) and the literal containers the closures share (a memo `cache = {}` / `{None: ""}`
+    # of the enclosing function: every evaluation starts from the literal of the source)
+    from ..astmatch import assignments
+    asg = assignments(fi.node)
+    sibs = [s for s in walk_no_nested(fi.node) if isinstance(s, ast.FunctionDef) and s is not node and s is not fi.node]
+    used = {t.id for b in [node] + sibs for t in ast.walk(b) if isinstance(t, ast.Name)}
+    lits = []
+    for nme in sorted(used):
+        vals = asg.get(nme, [])
+        if nme not in ps and len(vals) == 1 and isinstance(vals[0], (ast.Dict, ast.List, ast.Set)) and not any(isinstance(t, ast.Name) and t.id == nme for s_ in pre for t in s_.targets):
+            st = ast.Assign(targets=[ast.Name(id=nme, ctx=ast.Store())], value=vals[0])
+            ast.copy_location(st, vals[0])
+            ast.fix_missing_locations(st)
+            lits.append(st)
+    leaves = run_block(dt, lits + pre + sibs + list(node.body), env0, fi, limit=limit)
     out = []
     for v, env, eff, outcome in leaves:
         ret = outcome[1] if isinstance(outcome, tuple) and outcome[0] == "return" else None
@@ -431,8 +493,35 @@ ABSTRACTION = (
     "for every value of the symbols. Nothing of the analysed package is imported, compiled or executed; no concrete table, page layout or attribute value is chosen.")
 
 
+_OWN_RULES = ("R02.1", "R02.4", "R02.5", "R02.7", "R08.", "R09.2", "R09.3", "R09.4", "R09.6", "R09.7")
+
+
+def is_opaque(*terms) -> bool:
+    """some part of the terms is an expression the evaluator could not model (LDT names it `?<source text>`)"""
+    return any(isinstance(p, Sym) and p.path.startswith("?") for t in terms for p in tparts(t))
+
+
+def _install_opaque_guard(ctx: Ctx) -> None:
+    """safety net for the rules of this module: a verdict whose evidence mentions an un-modelled expression (`?...`) is an analysis gap,
+    never a violation - whatever the rule's own checks concluded"""
+    import re
+    if getattr(ctx, "_opaque_guard", False):
+        return
+    orig = ctx.violation
+    pat = re.compile(r"(^|[\s`(\[,:={])\?[A-Za-z_(\[{'\"]")
+
+    def violation(rule, construct, offending, where, msg, **detail):
+        if rule.startswith(_OWN_RULES) and pat.search(f"{offending} {msg}"):
+            ctx.gap(rule, "not decided - the evidence involves an expression the evaluator does not model: " + msg[:200])
+            return
+        return orig(rule, construct, offending, where, msg, **detail)
+    ctx.violation = violation          # type: ignore[method-assign]
+    ctx._opaque_guard = True           # type: ignore[attr-defined]
+
+
 def declare(ctx: Ctx) -> None:
     """state the abstraction and its bounds once per run"""
+    _install_opaque_guard(ctx)
     if ABSTRACTION in ctx.explanations:
         return
     ctx.explain(ABSTRACTION)
@@ -613,6 +702,52 @@ def _slice_parts(v):
 _ROW_PRESERVING = {"enhance_group_by", "restore_page_context", "clone", "rechunk"}
 
 
+def _heights_of_pages(t, p_pages: str) -> bool:
+    """the term is the list of the pages' own row counts, in page order: [page.data.height for page in pages]"""
+    t = unwrap(t, names=("list", "tuple"))
+    if not (isinstance(t, CompSym) and t.kind == "list" and t.elt is not None and isinstance(t.source, Init) and t.source.path == p_pages):
+        return False
+    fs = frame_of_shape(t.elt)
+    return fs is not None and fs[1] == 0 and isinstance(fs[0], AttrSym) and fs[0].attr == "data" and fs[0].base is t.var
+
+
+def _prefix_sums_of_heights(t, p_pages: str):
+    """'ok' if element k of the term is the sum of the first k page heights (the k-th page's first row), 'shifted' if it is the sum of the
+    first k + 1 (the running total after the page), None if not recognised.  itertools.accumulate(xs, initial=0) / [0] + accumulate(xs)"""
+    t = unwrap(t, names=("list", "tuple"))
+    if isinstance(t, CallSym) and t.recv is None and t.meth == "accumulate" and len(t.args) == 1 and _heights_of_pages(t.args[0], p_pages):
+        kw = dict(t.kw)
+        if set(kw) - {"initial"}:
+            return None
+        if "initial" not in kw or kw["initial"] is None:
+            return "shifted"
+        return "ok" if isinstance(kw["initial"], _NUM) and not isinstance(kw["initial"], bool) and kw["initial"] == 0 else None
+    if isinstance(t, OpSym) and t.op == "+" and isinstance(t.left, list) and len(t.left) == 1 and isinstance(t.left[0], _NUM) and t.left[0] == 0:
+        r = unwrap(t.right, names=("list", "tuple"))
+        if isinstance(r, SliceSym) and r.lo is None:
+            r = unwrap(r.base, names=("list", "tuple"))
+        return "ok" if _prefix_sums_of_heights(r, p_pages) == "shifted" else None
+    return None
+
+
+def _frame_leaves(t, depth: int = 0) -> list:
+    """the frames a frame-valued term is derived from, following receivers and the frame arguments of the grouping service's row-preserving
+    calls (index lists, column names and other non-frame arguments are not frames and are skipped); '?' marks an unknown step"""
+    if depth > 8:
+        return ["?"]
+    if isinstance(t, (Init, AttrSym, SubSym, ElemSym)):
+        return [t]
+    if isinstance(t, CallSym) and t.meth in _ROW_PRESERVING:
+        out = []
+        if t.meth in ("clone", "rechunk"):
+            return _frame_leaves(t.recv, depth + 1)
+        for a in t.args:
+            if isinstance(a, (Init, ElemSym)) or (isinstance(a, CallSym) and a.meth in _ROW_PRESERVING) or (isinstance(a, AttrSym) and a.attr == "data"):
+                out.extend(_frame_leaves(a, depth + 1))
+        return out or ["?"]
+    return ["?"]
+
+
 def cursor_post_processing(ctx: Ctx, rule: str) -> None:
     """_apply_data_post_processing: every page's data is re-cut from the column-reduced frame (with group_by: from the frame the
     grouping service derives from it) as consecutive slices of the pages' own heights.  One generic iteration of every loop that
@@ -648,6 +783,11 @@ def cursor_post_processing(ctx: Ctx, rule: str) -> None:
             it = sp["it"]
             src = it.args[0] if isinstance(it, CallSym) and it.recv is None and it.meth == "enumerate" and it.args else it
             where = fi.where(lp)
+            zargs = None
+            if isinstance(src, CallSym) and src.recv is None and src.meth == "zip" and sum(1 for a in src.args if isinstance(a, Init) and a.path == p_pages) == 1:
+                zargs = list(src.args)              # parallel sequences: component k of the generic element is element k of each
+                src = next(a for a in zargs if isinstance(a, Init) and a.path == p_pages)
+                ctx.assume("R02.1: zip(a, b, ...) pairs the k-th elements of its arguments; itertools.accumulate(xs, initial=0) yields 0, x0, x0+x1, ... (prefix sums, in order)")
             if not (isinstance(src, Init) and src.path == p_pages):
                 if isinstance(src, CallSym) and src.recv is None and src.meth in ("reversed", "sorted"):
                     ctx.violation(rule, fi.short, "cursor re-slice: page order " + path_of(src)[:50], where, f"the pages are re-cut in the order `{path_of(src)[:60]}`, not in page order: the slices no longer follow the rows")
@@ -663,6 +803,12 @@ def cursor_post_processing(ctx: Ctx, rule: str) -> None:
                     continue
                 frame, off, ln, ln_term = sl
                 page_data = f"{page.path}.data"
+
+                def zip_source(t):
+                    """the zipped sequence a component of the generic element comes from"""
+                    if zargs is not None and isinstance(t, SubSym) and t.base is elem and isinstance(t.key, int) and 0 <= t.key < len(zargs):
+                        return zargs[t.key]
+                    return None
                 if key not in seen:
                     seen.add(key)
                     ctx.instance(rule, where, f"cursor re-slice (generic page): data' = `{path_of(frame)[:60]}`[{path_of(off)[:30]} : +{path_of(ln_term)[:50]}]; "
@@ -674,6 +820,9 @@ def cursor_post_processing(ctx: Ctx, rule: str) -> None:
                     fs = frame_of_shape(t)
                     if fs is not None and fs[1] == 0 and path_of(fs[0]) == page_data:
                         h = t
+                hz = zip_source(ln_term)
+                if hz is not None and _heights_of_pages(hz, p_pages):
+                    h = ln_term                         # element k of [page.data.height for page in pages], zipped with page k
                 if ln is None:
                     ok = False
                     ctx.violation(rule, fi.short, "cursor re-slice: page heights changed", where, f"a page's data is re-cut as `{path_of(val)[:80]}`, an open-ended slice: every page gets all remaining rows")
@@ -684,8 +833,18 @@ def cursor_post_processing(ctx: Ctx, rule: str) -> None:
                                       f"a page's data is re-cut with length `{path_of(ln_term)[:60]}`, not the page's own row count: rows move from one page to another")
                     else:
                         ctx.gap(rule, f"_apply_data_post_processing: slice length `{path_of(ln_term)[:60]}` could not be related to the page's own row count")
-                # the offset is a cursor carried through the loop, 0 before it, advanced by the page's height
-                if isinstance(off, Carried):
+                # the offset is a cursor carried through the loop, 0 before it, advanced by the page's height - or element k of the prefix sums of the heights
+                oz = zip_source(off)
+                if oz is not None:
+                    kind = _prefix_sums_of_heights(oz, p_pages)
+                    if kind == "shifted":
+                        ok = False
+                        ctx.violation(rule, fi.short, "cursor re-slice: cursor starts at the first page's height", where,
+                                      f"page k is re-cut from offset `{path_of(oz)[:70]}`[k], the running total AFTER page k (no initial 0): every page gets the rows of the next one")
+                    elif kind != "ok":
+                        ok = False
+                        ctx.gap(rule, f"_apply_data_post_processing: the sequence of slice offsets `{path_of(oz)[:70]}` is not recognisable as the prefix sums of the pages' heights")
+                elif isinstance(off, Carried):
                     entry = off.entry
                     if not (isinstance(entry, _NUM) and not isinstance(entry, bool) and entry == 0):
                         ok = False
@@ -712,14 +871,15 @@ def cursor_post_processing(ctx: Ctx, rule: str) -> None:
                     ok = False
                     ctx.gap(rule, f"_apply_data_post_processing: slice offset `{path_of(off)[:50]}` is not a cursor carried through the page loop")
                 # provenance of the frame
-                rs = roots(frame)
-                calls = {p.meth for p in tparts(frame) if isinstance(p, CallSym)}
+                lv = _frame_leaves(frame)
+                from_pages = [x for x in lv if not isinstance(x, str) and (path_of(x) == page_data or (isinstance(x, AttrSym) and x.attr == "data" and p_pages in roots(x))
+                                                                             or (isinstance(x, Init) and x.path == p_pages))]
                 if isinstance(frame, Init) and frame.path == p_frame:
                     pass
-                elif any(path_of(p) == page_data for p in tparts(frame)) or (p_pages in rs and p_frame not in rs):
+                elif from_pages:
                     ok = False
                     ctx.violation(rule, fi.short, "slice sources " + path_of(frame)[:60], where, f"page data is re-cut from `{path_of(frame)[:80]}`, not from the column-reduced frame `{p_frame}`")
-                elif p_frame in rs and calls and calls <= _ROW_PRESERVING:
+                elif "?" not in lv and lv and all(isinstance(x, Init) and x.path == p_frame for x in lv):
                     pass
                 else:
                     ok = False
@@ -1010,15 +1170,61 @@ def _mod_index(k, seq):
     return None
 
 
-def lookup_of(v) -> Lookup | None:
+def _closure_binding(call: CallSym, site) -> dict:
+    cdt, ps, dflt, rows = site["closures"][call.meth]
+    binding = dict(dflt)
+    binding.update(dict(zip(ps, call.args)))
+    binding.update(dict(call.kw))
+    return binding
+
+
+def view_of(bv, site):
+    """(BroadcastValue(...) construction term, binding of closure parameters | None) the receiver of an .iloc denotes: the construction
+    itself, or a call of a local closure that returns it - possibly through a memo it keeps per key (`view = views.get(k); if view is None:
+    view = BroadcastValue(...k...); views[k] = view; return view`): a memoised construction whose only closure parameter is the memo key
+    is the construction, so the cached-view idiom is read as constructing the view each time"""
+    if isinstance(bv, CallSym) and bv.meth == "BroadcastValue":
+        return bv, None
+    if site is None or not (isinstance(bv, CallSym) and bv.recv is None and bv.meth in site["closures"]):
+        return None
+    cdt, ps, dflt, rows = site["closures"][bv.meth]
+    built = [r for _v, r, _e in rows if isinstance(r, CallSym) and r.meth == "BroadcastValue"]
+    other = [r for _v, r, _e in rows if not (isinstance(r, CallSym) and r.meth == "BroadcastValue")]
+    if not built or len({path_of(_term_arg(b, "value", 0)) + "|" + path_of(_term_arg(b, "dimension", 1)) for b in built}) != 1:
+        return None
+    if other:
+        # the remaining paths must hand out what the memo holds, and the memo must be filled with the construction under a key that
+        # is the only closure parameter the construction depends on
+        keys = {path_of(e[2]) for _v, _r, eff in rows for e in eff if e[0] == "setitem" and isinstance(e[3], CallSym) and e[3].meth == "BroadcastValue"}
+        used_params = {p_.path for p_ in tparts(built[0]) if isinstance(p_, Init) and p_.path in ps}
+        if not keys or not used_params <= keys or any(any(isinstance(x, CallSym) and x.meth == "BroadcastValue" for x in tparts(r)) or r is None for r in other):
+            return None
+    return built[0], _closure_binding(bv, site)
+
+
+def _resolve_name(name, binding):
+    """an attribute name given by a closure parameter, seen from the caller of the closure"""
+    if binding is not None and isinstance(name, tuple) and name[0] == "param":
+        arg = binding.get(name[1])
+        if isinstance(arg, str):
+            return arg
+        if isinstance(arg, Init):
+            return ("param", arg.path)
+        return None
+    return name
+
+
+def lookup_of(v, site=None) -> Lookup | None:
     """recognise an attribute lookup term"""
-    if isinstance(v, CallSym) and v.meth == "iloc" and isinstance(v.recv, CallSym) and v.recv.meth == "BroadcastValue" and len(v.args) + len(v.kw) >= 2:
-        bv = v.recv
-        src = _term_arg(bv, "value", 0)
-        r = _term_arg(v, "row_index", 0)
-        c = _term_arg(v, "column_index", 1)
-        owner, name = _attr_source(src)
-        return Lookup(src, name, owner, lin_of(r), lin_of(c), "iloc", _term_arg(bv, "dimension", 1), r, c)
+    if isinstance(v, CallSym) and v.meth == "iloc" and len(v.args) + len(v.kw) >= 2:
+        got = view_of(v.recv, site)
+        if got is not None:
+            bv, inner = got
+            src = _term_arg(bv, "value", 0)
+            r = _term_arg(v, "row_index", 0)
+            c = _term_arg(v, "column_index", 1)
+            owner, name = _attr_source(src)
+            return Lookup(src, _resolve_name(name, inner), owner, lin_of(r), lin_of(c), "iloc", _term_arg(bv, "dimension", 1), r, c)
     if isinstance(v, SubSym) and isinstance(v.base, SubSym):
         grid = v.base.base
         r = _mod_index(v.base.key, grid)
@@ -1067,8 +1273,15 @@ def site_analysis(ctx: Ctx, short: str):
         leaves = whole(dt, fi)
         cover(ctx, f"{short} (whole body over symbolic inputs; one generic row / cell)", leaves)
         closures = {}
-        for name, node in dt.closures.items():
+        todo = dict(dt.closures)
+        while todo:
+            name, node = todo.popitem()
+            if name in closures:
+                continue
             cdt, ps, rows = closure_summary(lambda: TDT(pm, watch=MODEL_WATCH), fi, node)
+            for n2, nd2 in cdt.closures.items():
+                if n2 not in closures and n2 != name:
+                    todo[n2] = nd2
             cover(ctx, f"{short}.<locals>.{name} (closure summary over symbolic parameters)", [(v, None) for v, _r, _e in rows])
             a = node.args
             dflt = {}
@@ -1084,20 +1297,18 @@ def site_analysis(ctx: Ctx, short: str):
 def lookups_of(v, site) -> tuple[list[Lookup], list[str]]:
     """(lookups the value may be, descriptions of alternatives that are not lookups) - a call of a summarised local closure is
     expanded path by path with its parameters bound to the call's arguments"""
-    lk = lookup_of(v)
+    lk = lookup_of(v, site)
     if lk is not None:
         return [lk], []
     if isinstance(v, CallSym) and v.recv is None and v.meth in site["closures"]:
         cdt, ps, dflt, rows = site["closures"][v.meth]
-        binding = dict(dflt)
-        binding.update(dict(zip(ps, v.args)))
-        binding.update(dict(v.kw))
+        binding = _closure_binding(v, site)
         out, other = [], []
         for val, ret, _eff in rows:
             if ret is None or (isinstance(ret, Init) and ret.path in ps):
                 other.append("default" if ret is not None else "None")        # value absent -> None / the caller's default
                 continue
-            lk = lookup_of(ret)
+            lk = lookup_of(ret, site)
             if lk is None:
                 other.append(path_of(ret)[:80])
                 continue
@@ -1157,6 +1368,84 @@ def generic_cells(ctx: Ctx):
     return site, out
 
 
+def _closure_text(ctx: Ctx, rule: str, fi, where: str, call: CallSym, site, p_df: str):
+    """judge the display text `f(cell value)` computed by a local closure f from f's summary: on every path the result must be '' where the
+    value was found to be null and str(value) where it was found not to be; a result read back from a table the closure fills with str(key)
+    under the raw value as key is a memo keyed by ==/hash.  -> (cell value term, description) when the text is accounted for, else None"""
+    cdt, ps, dflt, rows = site["closures"][call.meth]
+    binding = _closure_binding(call, site)
+    cells = [p_ for p_ in ps if cell_of(binding.get(p_)) is not None]
+    if len(cells) != 1:
+        ctx.gap(rule, f"_encode: the cell text `{path_of(call)[:70]}` is computed by a local helper whose argument is not recognisably one cell of the frame")
+        return None
+    p = cells[0]
+    raw = binding[p]
+    frame0 = cell_of(raw)[0]
+    from_param = isinstance(frame0, Init) and frame0.path == p_df
+    ok = True
+    kinds = set()
+    memo_writes = [e for _v, _r, eff in rows for e in eff if e[0] == "setitem" and isinstance(e[1], dict) and isinstance(e[2], Init) and e[2].path == p]
+    for cv, ret, _eff in rows:
+        null = None                                    # what this path established about `value is None`
+        for key, val in cv.items():
+            rec = cdt.cmp.get(key)
+            if rec is None or not (isinstance(rec[1], Init) and rec[1].path == p):
+                continue
+            if rec[0] == "is None":
+                null = val
+            elif rec[0] in (ast.In, ast.NotIn) and isinstance(rec[2], dict) and None in rec[2]:
+                inside = val if rec[0] is ast.In else not val
+                if not inside:
+                    null = False                       # not among the keys, one of which is None
+        inner = ret
+        if isinstance(inner, CallSym) and inner.recv is None and inner.meth == "str" and len(inner.args) == 1:
+            inner = inner.args[0]
+        if isinstance(ret, str):
+            kinds.add(f"{ret!r} when null")
+            if ret != "" and null:
+                ok = False
+                ctx.violation(rule, fi.short, f"cell source null shows {ret!r}", where, f"_encode: a null value is shown as {ret!r}, expected ''")
+            elif not null:
+                ok = False
+                ctx.gap(rule, f"_encode: the constant cell text {ret!r} returned by `{call.meth}` could not be related to a null test of the cell value")
+        elif isinstance(inner, Init) and inner.path == p:
+            kinds.add("str(value)" if inner is not ret else "the value itself")
+            if null is None:
+                ok = False
+                if from_param:
+                    ctx.violation(rule, fi.short, "cell source: null shown as " + path_of(call)[:60], where,
+                                  f"_encode: `{call.meth}` returns `{path_of(ret)[:40]}` on a path that never tests the value for null: a null value is rendered as the text 'None' (expected '')")
+                else:
+                    ctx.gap(rule, f"_encode: the cell text is read from the derived frame `{path_of(frame0)[:50]}` without a per-cell null test")
+            elif null:
+                ok = False
+                ctx.violation(rule, fi.short, "cell source: null polarity", where, f"_encode: `{call.meth}` returns `{path_of(ret)[:40]}` exactly when the value IS null")
+        elif isinstance(ret, SubSym) and isinstance(ret.key, Init) and ret.key.path == p and path_of(ret.base) == "{…}":
+            # read back from a table indexed by the raw cell value
+            stored = [path_of(e[3]) for e in memo_writes]
+            if memo_writes and all(isinstance(e[3], CallSym) and e[3].recv is None and e[3].meth == "str" and e[3].args and isinstance(e[3].args[0], Init) and e[3].args[0].path == p for e in memo_writes):
+                ok = False
+                kinds.add("memo[value]")
+                ctx.violation(rule, fi.short, "cell source: text memo keyed by the raw value", where,
+                              f"_encode: `{call.meth}` serves a cell's text from a table it fills with str(value) under the raw value as key; dict keys identify values by ==/hash, "
+                              "under which 1, 1.0 and True (0, 0.0 and False) are ONE key although their display texts differ: a cell is rendered with the text of an equal value of "
+                              "another type met earlier (expected str(value) of the cell's own value; key by (type(value), value) or do not memoise)")
+            elif not memo_writes:
+                kinds.add("table[value]")
+                if null is False:
+                    ok = False
+                    ctx.gap(rule, f"_encode: `{call.meth}` looks the cell text up in a literal table for a non-null value; the table's entries are not decided")
+            else:
+                ok = False
+                ctx.gap(rule, f"_encode: `{call.meth}` reads the cell text from a table it fills with {stored[:2]}; whether the entry is the display text of the cell's own value is not decided")
+        else:
+            ok = False
+            ctx.gap(rule, f"_encode: the result `{path_of(ret)[:60]}` of `{call.meth}` is not recognisable as the display text of the cell value")
+    if not ok:
+        return None
+    return raw, f"{call.meth}(value) = " + " / ".join(sorted(kinds))
+
+
 def encode_index_agreement(ctx: Ctx, rule: str) -> None:
     """TableAttributes._encode, one generic row i and one generic column j: the cell built for (i, j) shows df.row(i)[j] ('' for null,
     else str(value)) and ends at col_widths[j]; i runs over all rows and j over all columns of the frame in order; the row's cells
@@ -1203,7 +1492,13 @@ def encode_index_agreement(ctx: Ctx, rule: str) -> None:
             continue
         null_atoms = {k: (dtv, val) for k, val in v.items() for dtv in [site["dt"].cmp.get(k)] if dtv is not None and dtv[0] == "is None" and cell_of(dtv[1]) is not None}
         raw = None
-        if isinstance(txt, str):
+        if isinstance(txt, CallSym) and txt.recv is None and txt.meth in site["closures"]:
+            # the display text is computed by a local closure: its summary (every path) composed with the call's argument
+            verdict = _closure_text(ctx, rule, fi, where, txt, site, p_df)
+            if verdict is None:
+                continue
+            raw, shown_as = verdict
+        elif isinstance(txt, str):
             hit = [(k, rec) for k, (rec, val) in null_atoms.items() if val]
             if txt == "" and hit:
                 raw = hit[0][1][1]
